@@ -1,6 +1,7 @@
 package pcv
 
 import (
+	"path/filepath"
 	"encoding/json"
 	"fmt"
 	"os"
@@ -149,4 +150,54 @@ func Explain(path, repo, verif string) int {
 	}
 	fmt.Println("the recorded obligation is not violated on the current tree")
 	return 0
+}
+
+// RunAll loads the program once and runs the rules of every property (developer tool for mass experiments: no
+// evidence is written). It prints one line per unlisted violation: "<property> <rule>|<construct>".
+func RunAll(repo, verif string) int {
+	p, err := Load(repo, nil)
+	if err != nil {
+		fmt.Println("CHECK-BROKEN", err)
+		return 2
+	}
+	findings, _ := LoadFindings(filepath.Join(verif, "known_findings.jsonl"))
+	var ids []string
+	for k := range registry {
+		ids = append(ids, k)
+	}
+	sort.Strings(ids)
+	rc := 0
+	for _, prop := range ids {
+		pc := registry[prop]
+		known := map[string]bool{}
+		for _, f := range findings {
+			if f.Status == "known" && f.Property == prop {
+				known[f.Key] = true
+			}
+		}
+		func() {
+			defer func() {
+				if r := recover(); r != nil {
+					if be, ok := r.(*BrokenError); ok {
+						fmt.Printf("%s BROKEN:%s\n", prop, be.Msg)
+						rc = 2
+						return
+					}
+					panic(r)
+				}
+			}()
+			c := NewCtx(p, prop, "quick")
+			c.VerifDir = verif
+			pc.Run(c)
+			for _, o := range c.Obls {
+				if o.Verdict == "violated" && !known[o.Key()] {
+					fmt.Printf("%s %s\n", prop, o.Key())
+					if rc == 0 {
+						rc = 1
+					}
+				}
+			}
+		}()
+	}
+	return rc
 }
